@@ -50,3 +50,35 @@ Print Assumptions C12_open_after_damage.
 (* the source at hand is the repaired one (generated) *)
 Theorem C12_source_checks_page_type : meta_checks_page_type = true.
 Proof. reflexivity. Qed.
+
+(* ==== END TO END with copy-on-write (engine model + byte level): take the file of a reachable state, commit one more transaction
+   (the file is UPDATED in place: written page runs, new free-list run, new header in the other slot), then destroy the new header
+   (any content that does not validate; C12_* above: any single significant byte). Opening the result returns the PREVIOUS
+   header with its free ids and free-list run; the executable file checker and the model of the library's own check accept the
+   file; and every bucket of the previous commit reads back the reference contents -- nothing the lost transaction wrote
+   touched a page the previous commit uses. (`writes_fit` / `phys_ok` / `tree_fits`: decidable physical limits.) ==== *)
+From Jamm Require Bytes Spec Codec Tree CheckM Engine EngineAbs EnginePathFacts EngineRefines EngineCow EngineReadBridge EngineFileImage EngineReopen EngineFallback.
+Theorem C12_engine_fallback_reads_previous_commit : forall (st : Engine.db) (ops : list Engine.op) (ord : list Bytes.bytes)
+    (st' : Engine.db) (pad : N -> Byte.byte) (P : N) (other : list Byte.byte),
+  EngineReopen.db_inv st -> Forall (EnginePathFacts.op_ok (Engine.d_disk st)) ops ->
+  Engine.run_tx st ops ord = Engine.Ok st' -> EngineRefines.readable st' ->
+  EngineFileImage.tree_fits P st -> EngineFileImage.phys_ok P st -> EngineFileImage.phys_ok P st' ->
+  List.length other = N.to_nat P ->
+  exists w : list (N * (N * Engine.ndata)),
+    EngineCow.tx_cow st st' w /\
+    (EngineFallback.writes_fit P st w ->
+     forall pg' : list Byte.byte, List.length pg' = N.to_nat P -> Meta.read_slot true pg' = Meta.SlotInvalid ->
+     let rd := Codec.reader_of (EngineFallback.damaged_image pad P (EngineFileImage.file_image pad P st other) st st' w pg') in
+     Tree.open_db rd P = Codec.Ok (EngineFallback.opened_of P st) /\
+     Tree.inv_check rd P = Codec.Ok tt /\ CheckM.check_m rd P = Codec.Ok tt /\
+     (forall path : list Bytes.bytes,
+      match Spec.get_at path (EngineAbs.abs_db st) with
+      | Some (Spec.SBucket o x es) =>
+          exists (r : N) (t : Tree.tree),
+            EngineReadBridge.BytesLevel.root_at_b rd P (Engine.d_root st) path = Some r /\
+            Tree.build_tree Engine.fuel0 rd P r = Codec.Ok t /\
+            EngineReadBridge.NH.wf_tree_nh t = true /\ EngineReadBridge.cursor_agrees t (Spec.SBucket o x es)
+      | _ => EngineReadBridge.BytesLevel.root_at_b rd P (Engine.d_root st) path = None
+      end)).
+Proof. exact EngineFallback.run_tx_fallback. Qed.
+Print Assumptions C12_engine_fallback_reads_previous_commit.
